@@ -1691,6 +1691,14 @@ def do_conf_str(src: str, data: T.List[str], confdata: 'ConfigurationData',
     else:
         raise MesonException('Invalid variable format')
 
+def _keep_line_ending(template_line: str, define_line: str) -> str:
+    # The define helpers always terminate their result with '\n'; give it
+    # the line ending the template line had (CRLF, or none at end of file).
+    eol = template_line[len(template_line.rstrip('\r\n')):]
+    if define_line.endswith('\n') and eol != '\n':
+        return define_line[:-1] + eol
+    return define_line
+
 def do_conf_str_meson(src: str, data: T.List[str], confdata: 'ConfigurationData',
                       subproject: T.Optional[SubProject] = None) -> T.Tuple[T.List[str], T.Set[str], bool]:
 
@@ -1706,7 +1714,7 @@ def do_conf_str_meson(src: str, data: T.List[str], confdata: 'ConfigurationData'
     for line in data:
         if line.lstrip().startswith(search_token):
             confdata_useless = False
-            line = do_define_meson(regex, line, confdata, subproject)
+            line = _keep_line_ending(line, do_define_meson(regex, line, confdata, subproject))
         else:
             if re.search(r'#\s*cmakedefine', line):
                 raise MesonException(f'Format error in {src}: saw "{line.strip()}" when format set to "meson"')
@@ -1739,7 +1747,7 @@ def do_conf_str_cmake(src: str, data: T.List[str], confdata: 'ConfigurationData'
                 from ..interpreterbase.decorators import FeatureNew
                 FeatureNew.single_use('whitespace between `#` and `cmakedefine`', '1.9.0', subproject)
             confdata_useless = False
-            line = do_define_cmake(line, confdata, at_only, subproject)
+            line = _keep_line_ending(line, do_define_cmake(line, confdata, at_only, subproject))
         else:
             if '#mesondefine' in line:
                 raise MesonException(f'Format error in {src}: saw "{line.strip()}" when format set to "{variable_format}"')
